@@ -141,6 +141,7 @@ def run_shard(desc, seed, tier, col):
                 break
         col.case(case, bool(kinds & {'SEQUENCE', 'SET', 'SEQUENCEOF', 'SETOF', 'CHOICE'}), feats,
                  sample={'type': ir.show_type(T), 'value': absval.short(v, 160), 'der': x690.der(T, v).hex()[:120]})
+        col.begin(case)
         for f in run_case(case):
             col.fail(f['sub'], f['kind'], f['msg'], case, sig=f['sig'], obs=f.get('obs'))
 
